@@ -272,8 +272,17 @@ class SqliteQueue(SqliteDLQMixin, Queue):
 
         locked_until = datetime.now(UTC) + (duration or self.lock_duration)
         conn = self._get_connection()
+        # Bump the version as well: poll_one() claims with "WHERE version =
+        # :version", so a poller that selected this row as a candidate while
+        # its lock had lapsed must lose that race once the lock is renewed,
+        # instead of claiming a message whose lock is valid again.
         cursor = conn.execute(
-            f"UPDATE {self.table_name} SET locked_until = :locked_until WHERE id = :id",
+            f"""
+            UPDATE {self.table_name}
+            SET locked_until = :locked_until,
+                version = version + 1
+            WHERE id = :id
+            """,
             {"locked_until": locked_until.isoformat(), "id": msg_id},
         )
         conn.commit()
